@@ -1,11 +1,11 @@
 SPECIFICATION Spec
 CONSTANTS KnownDevs = {}
 INVARIANTS
+  InEnvelope
   C07_SeidFreshPerAssociation
   C07_TeidNonZeroAndUnique
   C07_ReportedEqualsProgrammed
   C02_EstablishmentResponseShape
-  InEnvelope
 POSTCONDITION TraceAccepted
 ALIAS Alias
 CHECK_DEADLOCK FALSE
